@@ -530,6 +530,10 @@ class Bits:
             offset = 0
 
         if isinstance(s, io.BytesIO):
+            if offset < 0 or (length is not None and length < 0):
+                raise bitstring.CreationError(f"The offset ({offset}) and length ({length}) must not be negative.")
+            if offset > s.seek(0, 2) * 8:
+                raise bitstring.CreationError(f"The offset of {offset} bits is greater than the data length ({s.seek(0, 2) * 8} bits).")
             if length is None:
                 length = s.seek(0, 2) * 8 - offset
             byteoffset, offset = divmod(offset, 8)
@@ -576,6 +580,8 @@ class Bits:
     def _setbitarray(self, ba: bitarray.bitarray, length: Optional[int], offset: Optional[int]) -> None:
         if offset is None:
             offset = 0
+        if offset < 0 or (length is not None and length < 0):
+            raise bitstring.CreationError(f"The offset ({offset}) and length ({length}) must not be negative.")
         if offset > len(ba):
             raise bitstring.CreationError(f"Offset of {offset} too large for bitarray of length {len(ba)}.")
         if length is None:
@@ -628,6 +634,10 @@ class Bits:
         data = bytearray(data)
         if offset is None:
             offset = 0
+        if offset < 0 or (length is not None and length < 0):
+            raise bitstring.CreationError(f"The offset ({offset}) and length ({length}) must not be negative.")
+        if offset > len(data) * 8:
+            raise bitstring.CreationError(f"The offset of {offset} bits is greater than the data length ({len(data) * 8} bits).")
         if length is None:
             # Use to the end of the data
             length = len(data) * 8 - offset
